@@ -107,7 +107,7 @@ def main(argv):
     v = Verdict(PROP, tier, seed)
     os.makedirs(W, exist_ok=True)
     proofs_ok, h_ok, unrec = standard_proof_steps(
-        v, PROP, ['instrfmt', 'texfmt'], ['theories/Props/C16.vo'], ['c16', 'truth-cli'],
+        v, PROP, ['instrfmt', 'texfmt', 'abiletters'], ['theories/Props/C16.vo'], ['c16', 'truth-cli'],
         corr_targets=['theories/Corr/C16.vo'])
     c16 = harness_bin('c16')
     fails, stats, diffs, seederr, herr, cases = [], {}, [], [], [], []
